@@ -486,7 +486,8 @@ fn msg_strategy(own: u16, others: Vec<u16>) -> impl Strategy<Value = M> {
         8 => (a.clone(), 0u8..6).prop_map(|(a, o)| M::Req(a, o)),
         1 => (a.clone(), 0u8..13).prop_map(|(a, s)| M::Report(a, s)),
         1 => (a.clone(), 0u8..6).prop_map(|(a, o)| M::Ack(a, o)),
-        1 => (a.clone(), 7u8..=255, proptest::collection::vec(any::<u8>(), 0..4)).prop_map(|(addr, ty, data)| M::Unknown { addr, ty, data }),
+        // hand-built unknown-frame wrappers of every type (also the types of the specific messages) with 0..3 data bytes
+        1 => (a.clone(), prop_oneof![2 => 0u8..=7, 1 => 7u8..=255], proptest::collection::vec(any::<u8>(), 0..4)).prop_map(|(addr, ty, data)| M::Unknown { addr, ty, data }),
         8 => (proptest::sample::select(vec![0u16, 0, 16, 16, 32, 0xFFF0, 1]), data_payload).prop_map(|(off, data)| M::Data { off, data }),
         4 => prop_oneof![4 => 0u16..8, 1 => Just(0xFFFFu16), 1 => any::<u16>()].prop_map(M::Count),
     ]
@@ -562,6 +563,7 @@ pub fn bfs_alphabet(own: u16, foreign: u16, rich: bool) -> Vec<M> {
         M::Report(own, S_UNCONFIGURED),
         M::Ack(own, O_START_RESET),
         M::Unknown { addr: own, ty: 7, data: vec![1] },
+        M::Unknown { addr: own, ty: 2, data: vec![] },
     ]);
     let tiny = tiny_block(12, 8); // 12x8: 16 data bytes -> one 16-byte chunk per page
     let two = tiny_block_max3000(20, 8, 8); // 28x8: 32 bytes -> two chunks per page
@@ -897,6 +899,33 @@ pub fn run(ctx: &Ctx, c13: bool) {
 
     // (a') transfers across the 16-bit chunk-counter boundary
     run_deep(ctx, mode);
+
+    // (a'') every height 1..=255 (both block layouts, three widths): one complete page, then transfers that lose their last
+    // chunk, their first chunk, a byte of the last chunk, and a complete one again - where the implementation's idea of
+    // a page's length and the page type's differ for some height, a short transfer of just that length is the witness
+    crate::engine::par_range(ctx, "every-height-short-transfers", 255 * 6, |i, st| {
+        let h = (i / 6 + 1) as u8;
+        let w = [1u8, 8, 16][(i % 3) as usize];
+        let block = if (i / 3) % 2 == 0 { tiny_block(w, h) } else { tiny_block_max3000(w, 0, h) };
+        let ops = vec![
+            HOp::Msg(M::Hello(9)),
+            HOp::Config { addr: 9, block: Block::Raw(block), fault: Fault::None },
+            HOp::Pixels { addr: 9, pages: 1, seed: i, fault: Fault::None, complete: true },
+            HOp::Pixels { addr: 9, pages: 1, seed: i + 1, fault: Fault::Drop(0xFFFF), complete: true },
+            HOp::Msg(M::Query(9)),
+            HOp::Pixels { addr: 9, pages: 1, seed: i + 2, fault: Fault::Drop(0), complete: true },
+            HOp::Pixels { addr: 9, pages: 2, seed: i + 3, fault: Fault::Short(0xFFFF), complete: true },
+            HOp::Pixels { addr: 9, pages: 2, seed: i + 4, fault: Fault::Drop(0xFFFF), complete: false },
+            HOp::Msg(M::Query(9)),
+            HOp::Pixels { addr: 9, pages: 1, seed: i + 5, fault: Fault::None, complete: true },
+            HOp::Flip { addr: 9, steps: 6 },
+        ];
+        let c = HistoryCase { addr: 9, automatic: i % 2 == 1, ops };
+        check_history(&c, mode, st).map_err(|m| (serde_json::to_value(&c).unwrap(), m))?;
+        st.nontrivial_enumerated(1);
+        Ok(())
+    });
+    ctx.part_done("every-height-short-transfers", true, json!("heights 1..=255 x widths {1,8,16} x {Horizon, Max3000} block layout: complete / last chunk lost / first chunk lost / short last chunk / complete"));
 
     // (b) random walks on a single sign
     run_generated(ctx, "walk", ctx.tier.pick(30_000, 1_000_000), || history_strategy(60), |c, st| check_history(c, mode, st));
